@@ -24,6 +24,18 @@ LIB_DISK = "let v = 1;\n"
 A_DISK = 'let l = import "./lib.ucg";\nlet r = l.v;\n'
 DISK = {"a.ucg": A_DISK, "lib.ucg": LIB_DISK}
 
+# Triangles on disk: A imports C and then B, B imports C, and A's diagnostic depends on a shape B
+# derives from C (two import levels). The directory walk order is file-system dependent, so 12
+# triangles with differently ordered names are laid out (added after a seeded change to the
+# workspace indexer's topological sort went unnoticed with the two-file workspace).
+TRIANGLES = []
+for _k, _perm in enumerate(list(itertools.permutations(["aa", "mm", "zz"])) * 2):
+    _a, _b, _c = ("%s%d.ucg" % (x, _k) for x in _perm)
+    TRIANGLES.append((_a, _b, _c))
+    DISK[_c] = "let v = 1;\n"
+    DISK[_b] = 'let c = import "./%s";\nlet w = c.v;\n' % _c
+    DISK[_a] = 'let c = import "./%s";\nlet b = import "./%s";\nlet z = b.w + "s";\n' % (_c, _b)
+
 RICH = ('// doc comment\nlet t = {\n    a = 1,\n    "b c" = [1, 2],\n};\nlet f = func (p) => p + t.a;\nlet s = select ("a", 0) => {\n    a = f(1),\n};\n'
         'let m = module {q = 1} => (r) {\n    let r = mod.q;\n};\nlet z = "@ @" % (1, m{});\n')
 TEXTS = {
@@ -45,6 +57,9 @@ TEXTS = {
     "no-trailing-newline": "let x = 1;",
     "only-comment": "// nothing here\n",
 }
+for _n, _t in list(DISK.items()):
+    if _n not in ("a.ucg", "lib.ucg"):
+        TEXTS["disk:" + _n] = _t
 CORE = {"a.ucg": ["valid-import", "valid", "syntax-first-line", "type-error", "non-ascii-then-error"],
         "lib.ucg": ["lib-v", "lib-no-v", "lib-syntax-error", "empty", "rich"]}
 
@@ -379,6 +394,12 @@ def run(ctx):
     if thorough:
         traces += [list(t) for t in itertools.product(small, repeat=4)]
     traces.append(covering_tour())
+    for a, b, c in TRIANGLES:
+        for first in (b, c):
+            for kind in ("open", "change"):
+                traces.append([("open", first, "disk:" + first), (kind, a, "disk:" + a)])
+        traces.append([("open", a, "disk:" + a)])
+        traces.append([("open", b, "disk:" + b), ("close", b), ("open", a, "disk:" + a)])
     ctx.bounds = {"documents": 2, "texts": len(TEXTS), "alphabet": len(full), "sequence_length": 4 if thorough else 3, "traces": len(traces)}
     ctx.rule = ("all sequences of 1..2 notifications over the full alphabet (2 documents x {open, change} x 5 texts + close = %d messages), all of "
                 "length 3 over %s and, thorough, length 4 over the 3-text alphabet, legal and protocol-violating ones alike, each replayed "
